@@ -1,0 +1,117 @@
+// Package document 现有XML部件的扫描与拼接
+package document
+
+import (
+	"bytes"
+	"encoding/xml"
+	"io"
+)
+
+// rootChild 描述XML部件根元素的一个直接子元素
+type rootChild struct {
+	Local string            // 元素本地名
+	Attrs map[string]string // 属性（按本地名）
+	Start int               // 元素在部件中的起始字节偏移
+	End   int               // 元素结束后的字节偏移
+}
+
+// scanRootChildren 扫描一个XML部件，返回根元素的直接子元素及其字节范围。
+// 用于在保留已打开文档原有编号/脚注定义的前提下追加新的定义。
+func scanRootChildren(part []byte) ([]rootChild, bool) {
+	decoder := xml.NewDecoder(bytes.NewReader(part))
+	var children []rootChild
+	depth := 0
+	sawRoot := false
+	for {
+		before := int(decoder.InputOffset())
+		token, err := decoder.Token()
+		if err == io.EOF {
+			break
+		}
+		if err != nil {
+			return nil, false
+		}
+		switch t := token.(type) {
+		case xml.StartElement:
+			depth++
+			if depth == 1 {
+				sawRoot = true
+			}
+			if depth == 2 {
+				attrs := make(map[string]string, len(t.Attr))
+				for _, a := range t.Attr {
+					attrs[a.Name.Local] = a.Value
+				}
+				children = append(children, rootChild{Local: t.Name.Local, Attrs: attrs, Start: before})
+			}
+		case xml.EndElement:
+			if depth == 2 && len(children) > 0 {
+				children[len(children)-1].End = int(decoder.InputOffset())
+			}
+			depth--
+		}
+	}
+	return children, sawRoot && depth == 0
+}
+
+// appendToRoot 把 fragment 插入到部件根元素的结束标签之前（根元素自闭合时先展开它）
+func appendToRoot(part []byte, fragment []byte) ([]byte, bool) {
+	return insertIntoRoot(part, fragment, -1)
+}
+
+// insertIntoRoot 把 fragment 插入到部件的 offset 处；offset < 0 表示插入到根元素结束标签之前
+func insertIntoRoot(part []byte, fragment []byte, offset int) ([]byte, bool) {
+	if offset >= 0 && offset <= len(part) {
+		out := make([]byte, 0, len(part)+len(fragment))
+		out = append(out, part[:offset]...)
+		out = append(out, fragment...)
+		return append(out, part[offset:]...), true
+	}
+	end := bytes.LastIndex(part, []byte("</"))
+	if end >= 0 {
+		out := make([]byte, 0, len(part)+len(fragment))
+		out = append(out, part[:end]...)
+		out = append(out, fragment...)
+		return append(out, part[end:]...), true
+	}
+	// 自闭合的根元素：<w:numbering .../>
+	selfClose := bytes.LastIndex(part, []byte("/>"))
+	start := bytes.LastIndex(part[:maxInt(selfClose, 0)], []byte("<"))
+	if selfClose < 0 || start < 0 {
+		return part, false
+	}
+	nameEnd := start + 1
+	for nameEnd < selfClose && part[nameEnd] != ' ' && part[nameEnd] != '\t' && part[nameEnd] != '\n' && part[nameEnd] != '\r' && part[nameEnd] != '/' {
+		nameEnd++
+	}
+	name := part[start+1 : nameEnd]
+	out := make([]byte, 0, len(part)+len(fragment)+len(name)+4)
+	out = append(out, part[:selfClose]...)
+	out = append(out, '>')
+	out = append(out, fragment...)
+	out = append(out, '<', '/')
+	out = append(out, name...)
+	out = append(out, '>')
+	return append(out, part[selfClose+2:]...), true
+}
+
+func maxInt(a, b int) int {
+	if a > b {
+		return a
+	}
+	return b
+}
+
+// bindWordNamespace 在片段的根元素上声明 w 前缀，使片段可以插入到使用其他前缀的部件中
+func bindWordNamespace(fragment []byte, element string) []byte {
+	open := []byte("<" + element)
+	idx := bytes.Index(fragment, open)
+	if idx < 0 {
+		return fragment
+	}
+	decl := []byte(` xmlns:w="http://schemas.openxmlformats.org/wordprocessingml/2006/main"`)
+	out := make([]byte, 0, len(fragment)+len(decl))
+	out = append(out, fragment[:idx+len(open)]...)
+	out = append(out, decl...)
+	return append(out, fragment[idx+len(open):]...)
+}
